@@ -565,7 +565,11 @@ func (u *Universe) okTerm(T types.Type, v Term, wm Term) Term {
 	case *types.Pointer, *types.Map, *types.Chan:
 		return app("Bool", "<=", v, wm)
 	case *types.Slice:
-		return app("Bool", "<=", app("Int", "sl_arr", v), wm)
+		// allocated, and a well-formed slice header (wf_slice written out: the prelude defines it after these functions)
+		arr, ln, cp, off := app("Int", "sl_arr", v), app("Int", "sl_len", v), app("Int", "sl_cap", v), app("Int", "sl_off", v)
+		return and(app("Bool", "<=", arr, wm), app("Bool", ">=", ln, intLit(0)), app("Bool", ">=", cp, ln), app("Bool", ">=", off, intLit(0)), app("Bool", ">=", arr, intLit(0)),
+			app("Bool", "<=", cp, Term{"1152921504606846976", "Int"}),
+			app("Bool", "=>", eq(arr, intLit(0)), and(eq(ln, intLit(0)), eq(cp, intLit(0)), eq(off, intLit(0)))))
 	case *types.Interface:
 		return app("Bool", "<=", app("Int", "if_val", v), wm)
 	case *types.Struct:
